@@ -44,6 +44,12 @@ pub(crate) const MAX_BATCH_BYTES: u64 = 10 * 1024 * 1024 * 1024; // 10 GiB total
 
 static LAST_MILLIS: AtomicU64 = AtomicU64::new(0);
 
+/// Like [`now_millis_str`], but the returned name is also greater than `floor`.
+pub(crate) fn millis_str_after(floor: u64) -> String {
+    LAST_MILLIS.fetch_max(floor, Ordering::AcqRel);
+    now_millis_str()
+}
+
 pub(crate) fn now_millis_str() -> String {
     let system_ms = SystemTime::now()
         .duration_since(SystemTime::UNIX_EPOCH)
